@@ -19,35 +19,25 @@ type OffsetCase struct {
 func init() { registerReplay("c15-offset", checkC15) }
 
 var (
+	// the property fixes WHAT an error cites (a byte offset; for unknown ids also the lexeme), not the
+	// wording: any message with "offset <k>" and, for unknown ids, the lexeme in quotes is accepted
+	reOffset = regexp.MustCompile(`(?i)offset[ :=]*(\d+)`)
+	reQuoted = regexp.MustCompile("'([^']*)'|\"([^\"]*)\"|`([^`]*)`")
+	// today's wording, used only to classify cases in the evidence
 	reUnknown = regexp.MustCompile(`^unknown license '(.*)' at offset (\d+)$`)
-	reMissing = regexp.MustCompile(`^expected id at offset (\d+)$`)
 )
 
 // checkOffsetMsg verifies one error text against the caller's string.
-func checkOffsetMsg(input, msg string) string {
-	if m := reUnknown.FindStringSubmatch(msg); m != nil {
-		lex := m[1]
-		k, _ := strconv.Atoi(m[2])
-		if k < 0 || k > len(input) {
-			return fmt.Sprintf("offset %d lies outside the %d-byte argument", k, len(input))
-		}
-		if lex == "" {
-			return "the cited lexeme is empty"
-		}
-		if k+len(lex) > len(input) || input[k:k+len(lex)] != lex {
-			got := input[k:min(len(input), k+len(lex))]
-			return fmt.Sprintf("the cited lexeme %q is not at offset %d of the argument (there: %q)", lex, k, got)
-		}
-		if (k > 0 && isIDByte(input[k-1])) || (k+len(lex) < len(input) && isIDByte(input[k+len(lex)])) {
-			return fmt.Sprintf("the cited lexeme %q at offset %d is only part of the identifier in the argument", lex, k)
-		}
-		return ""
+func checkOffsetMsg(input, msg, kind string) string {
+	m := reOffset.FindStringSubmatch(msg)
+	if m == nil {
+		return "the error cites no byte offset"
 	}
-	if m := reMissing.FindStringSubmatch(msg); m != nil {
-		k, _ := strconv.Atoi(m[1])
-		if k < 0 || k > len(input) {
-			return fmt.Sprintf("offset %d lies outside the %d-byte argument", k, len(input))
-		}
+	k, _ := strconv.Atoi(m[1])
+	if k < 0 || k > len(input) {
+		return fmt.Sprintf("offset %d lies outside the %d-byte argument", k, len(input))
+	}
+	if kind == "missing" {
 		if !strings.HasSuffix(input[:k], "Ref-") {
 			return fmt.Sprintf("offset %d does not follow a 'LicenseRef-' / 'DocumentRef-' prefix in the argument (before it: %q)", k, input[max(0, k-12):k])
 		}
@@ -56,7 +46,22 @@ func checkOffsetMsg(input, msg string) string {
 		}
 		return ""
 	}
-	return "the error is neither 'unknown license '<lexeme>' at offset <k>' nor 'expected id at offset <k>'"
+	q := reQuoted.FindStringSubmatch(msg)
+	if q == nil {
+		return "the error about an unknown identifier does not cite the offending lexeme"
+	}
+	lex := q[1] + q[2] + q[3]
+	if lex == "" {
+		return "the cited lexeme is empty"
+	}
+	if k+len(lex) > len(input) || input[k:k+len(lex)] != lex {
+		got := input[k:min(len(input), k+len(lex))]
+		return fmt.Sprintf("the cited lexeme %q is not at offset %d of the argument (there: %q)", lex, k, got)
+	}
+	if (k > 0 && isIDByte(input[k-1])) || (k+len(lex) < len(input) && isIDByte(input[k+len(lex)])) {
+		return fmt.Sprintf("the cited lexeme %q at offset %d is only part of the identifier in the argument", lex, k)
+	}
+	return ""
 }
 
 // checkC15: the error of each entry point cites an offset (and lexeme) that is true of the
@@ -79,7 +84,7 @@ func checkC15(c OffsetCase) Outcome {
 		if !isErr {
 			return fail(key, "%s with input %q returned no error although it contains an %s identifier", call.name, c.Input, c.Kind)
 		}
-		if why := checkOffsetMsg(c.Input, msg); why != "" {
+		if why := checkOffsetMsg(c.Input, msg, c.Kind); why != "" {
 			return fail(key, "%s with input %q returned error %q: %s", call.name, c.Input, msg, why)
 		}
 	}
